@@ -72,18 +72,29 @@ def cols_tok(pairs):
     return '+'.join(col_tok(n, a) for n, a in pairs) if pairs else '-'
 
 
+def _col(a, n):
+    try:
+        return a[n]
+    except KeyError:
+        return None          # listed in field_name_list, but no data behind it
+
+
 def sha(a):
     """byte-wise fingerprint of a container: field order, dtypes, bytes of every column, length"""
     h = hashlib.sha1()
     h.update(repr((len(a), list(a.field_name_list))).encode())
     for n in a.field_name_list:
-        arr = a[n]
-        h.update(n.encode() + str(arr.dtype).encode() + np.ascontiguousarray(arr).tobytes())
+        arr = _col(a, n)
+        h.update(n.encode() + (b'<no data>' if arr is None else str(arr.dtype).encode() + np.ascontiguousarray(arr).tobytes()))
     return h.hexdigest()
 
 
 def colshas(a):
-    return {n: (str(a[n].dtype), hashlib.sha1(np.ascontiguousarray(a[n]).tobytes()).hexdigest()[:12]) for n in a.field_name_list}
+    out = {}
+    for n in a.field_name_list:
+        arr = _col(a, n)
+        out[n] = ('<no data>', '') if arr is None else (str(arr.dtype), hashlib.sha1(np.ascontiguousarray(arr).tobytes()).hexdigest()[:12])
+    return out
 
 
 class StubLLH:
@@ -165,7 +176,10 @@ class World:
                 d['sin_dec'] = np.sin(d['dec'].astype(np.float64))
             return d
         self.cfg = Config()
-        self.exp = D(table(n, 1000, False), copy=True)
+        exp_tab = table(n, 1000, False)
+        for lack in spec.get('exp_lacks', []):
+            exp_tab.pop(lack, None)     # a field the configuration lists for the analysis, absent in exp, present in MC
+        self.exp = D(exp_tab, copy=True)
         self.mc = D(table(m, 5000, True), copy=True)
         ivs = np.array([[55000., 55004.5], [55004.5, 55010.]])
         self.lt = Livetime(ivs)
@@ -183,9 +197,13 @@ class World:
             'time': lambda: TimeScramblingMethod(timegen=tg, hor_to_equ_transform=lambda azi, zen, mjd: (
                 np.mod(azi + mjd, TWO_PI), np.asarray(zen) - np.pi / 2)),
         }
-        self.fixed = {k: FixedScrambledExpDataI3BkgGenMethod(DataScrambler(mk()), cfg=self.cfg) for k, mk in self.scr.items()}
-
         world = self
+
+        class _Lazy(dict):
+            def __missing__(self_, k):      # noqa: N805
+                self_[k] = FixedScrambledExpDataI3BkgGenMethod(DataScrambler(world.scr[k]()), cfg=world.cfg)
+                return self_[k]
+        self.fixed = _Lazy()
 
         class PreSel(EventSelectionMethod):
             def __init__(self):
@@ -327,12 +345,24 @@ def gen_keep(rng):
                        ['time', 'mcweight', 'true_ra']])
 
 
+def scramblers_for(spec):
+    return [k for k in SCRAMBLERS if not (k == 'seasonal' and spec['n_exp'] == 0)]
+
+
 def gen_spec(rng):
-    return {'data_seed': rng.randrange(10**6), 'n_exp': rng.choice([1, 2, 3, 5, 8, 13]), 'n_mc': rng.choice([2, 4, 9, 20]),
-            'narrow': rng.random() < 0.6, 'extra': True, 'ra_range': gen_ra_range(rng),
-            'mc_variant': {'scr': rng.choice([None, 'uniform', 'i3time', 'uniform_range', 'seasonal']), 'presel': rng.random() < 0.4,
+    lacks = rng.choice([[], [], [], ['run'], ['log_energy'], ['run', 'ang_err']])
+    index = rng.choice([None, 'run', 'run', 'time'])
+    if index in lacks:
+        index = 'time'
+    n_exp = rng.choice([0, 0, 1, 2, 3, 5, 8, 13])
+    mscr = rng.choice([None, 'uniform', 'i3time', 'uniform_range', 'seasonal'])
+    if n_exp == 0 and mscr == 'seasonal':
+        mscr = 'i3time'      # the seasonal method divides by the number of experimental events when it is constructed
+    return {'data_seed': rng.randrange(10**6), 'n_exp': n_exp, 'n_mc': rng.choice([2, 4, 9, 20]),
+            'narrow': rng.random() < 0.6, 'extra': True, 'ra_range': gen_ra_range(rng), 'exp_lacks': lacks,
+            'mc_variant': {'scr': mscr, 'presel': rng.random() < 0.4,
                            'keep': gen_keep(rng)},
             'time32': rng.random() < 0.3,
-            'trial': {'index': rng.choice([None, 'run', 'run', 'time']), 'pre': rng.random() < 0.5,
+            'trial': {'index': index, 'pre': rng.random() < 0.5,
                       'stat': rng.random() < 0.7, 'sel': rng.choice([False, False, True, True, 'all']),
                       'gfp': rng.random() < 0.6}}
